@@ -52,6 +52,39 @@ Proof. vm_compute. auto. Qed.
 Theorem C06_user_abort_has_precedence : USER_ABORT_HAS_PRECEDENCE = true.
 Proof. reflexivity. Qed.
 
+(* remove(): for a transfer that is still negotiating it is a stop like abort (covered above).  For a
+   finished transfer the abort inside remove() is refused and nothing is cancelled: *)
+Theorem C06_quiescent_after_remove_partial : forall s evs, tracked s -> sremoved s = false ->
+  (stoppable s = true \/ live s = []) -> after_remove_obs cur (fst (step cur s Remove)) evs = [].
+Proof. intros s evs. exact (remove_partial cur s evs eq_refl eq_refl). Qed.
+
+Theorem C06_quiescent_after_remove_refuted :
+  after_remove_obs cur (init Down) W6 = [OSend 0; OField 0] /\
+  sstate (run cur (init Down) [Cycle; Start 0; PeerMsg; Start 1; Begin 1; Finish 1; DoneCb 1]) = Done.
+Proof. vm_compute. auto. Qed.
+
+(* the body of TransferManager.remove is pinned by the translator; this is the version the model follows *)
+Theorem C06_remove_as_modelled : REMOVE_CANCELS_LEFTOVERS = false.
+Proof. reflexivity. Qed.
+
+(* A management cycle INSIDE a running abort/pause (the call holds the state lock while it awaits the
+   cancelled task; the transfer is still QUEUED).  For every interleaving of cycles, the end of the
+   cancelled task, the continuation of the call, deliveries, failures and re-queues: nothing happens after
+   the call returned  iff  the cycle skips transfers whose lock is held. *)
+Theorem C06_stop_interleaved_characterisation : forall g : bool,
+  if g then forall evs, i_after_stop_obs g i_init evs = []
+  else exists evs, i_after_stop_obs g i_init evs <> [].
+Proof.
+  intros [|]; [intros evs; exact (proj1 (interleaved_guarded evs i_init IJ_init))|].
+  exists WI. vm_compute. intros H. discriminate H.
+Qed.
+
+(* the code as it is: no lock test in the cycle *)
+Theorem C06_stop_interleaved_refuted :
+  CYCLE_SKIPS_LOCKED = false /\ i_after_stop_obs CYCLE_SKIPS_LOCKED i_init WI = [ISend 1; IField 1] /\
+  i_after_stop_obs CYCLE_SKIPS_LOCKED i_init WI' = [IField 1] /\ i_queued (irun CYCLE_SKIPS_LOCKED i_init WI') = true.
+Proof. vm_compute. auto. Qed.
+
 (* non-vacuity *)
 Example C06_stop_nonvacuous :
   let s := run cur (init Down) [Cycle; Start 0] in
